@@ -122,6 +122,48 @@ Fixpoint add_groups (gs : list (list Z * list opt)) (c : ctx) : ctx * option (li
 (* OptionContext& add(const OptionContext& other)   (other != this) *)
 Definition add_ctx (other : ctx) (c : ctx) : ctx * option (list Z) := add_groups (groups other) c.
 
+(* ---- a LARGE group of generated options (case op 9; seeded C14-r15: the option number stored in the index narrowed to 16 bits) ----
+   add(group "N" holding k options named gen_name 0 .. gen_name (k-1), no alias characters), k = bulk_count: at most BULK_MAX on a context
+   without options and keys, at most BULK_SMALL otherwise (evaluation budget of harness and model, not a limit of the code).
+   gen_name j = 'o' followed by the four base-36 digits of j (0-9 a-z): fixed width, so the byte order of the names is the numeric order of j,
+   the names are pairwise different below 36^4, and every proper prefix of a name is shared with neighbours only.
+   `bulk_add` is the GENERIC add_group applied to these options, except on a context without options and keys, where the same result is
+   written down in closed form (the names arrive in increasing order, so every insertion lands at the end of the index and option j gets the
+   number j): the generic insertion is a linear scan per option - quadratic - which no evaluation of 66000 options can afford.  Binary
+   iteration (Pos.iter through Z.iter) only; the option numbers are built by successor, so they share their structure.
+   Proofs8.v proves the closed form equal to the generic insertion for every count (bulk_add_generic); the correspondence run compares it
+   with the real add(group) at full size. *)
+Definition BULK_MAX : Z := 70000.
+Definition BULK_SMALL : Z := 300.
+Definition b36 (d : Z) : Z := if d <? 10 then 48 + d else 87 + d.
+Definition gen_name (j : Z) : list Z :=
+  let (q1, d0) := Z.div_eucl j 36 in let (q2, d1) := Z.div_eucl q1 36 in let (q3, d2) := Z.div_eucl q2 36 in
+  [111; b36 (q3 mod 36); b36 d2; b36 d1; b36 d0].
+Definition bulk_caption : list Z := [78].
+Definition ctx_fresh (c : ctx) : bool := is_nil (index c) && is_nil (options c).
+Definition bulk_count (k : Z) (c : ctx) : Z := Z.min (Z.max k 0) (if ctx_fresh c then BULK_MAX else BULK_SMALL).
+(* the names number k-1, k-2, .. 0 pushed in front of the accumulator: the result is in increasing order *)
+Definition gen_names (k : Z) : list (list Z) :=
+  snd (Z.iter k (fun p => let j := fst p - 1 in (j, gen_name j :: snd p)) (k, [])).
+Definition gen_opts (k : Z) : list opt := map (fun x => mkOpt x 0) (gen_names k).
+Fixpoint number_from (n : nat) (l : list (list Z)) : list entry :=
+  match l with [] => [] | x :: r => (x, n) :: number_from (S n) r end.
+Fixpoint group_push_all (gid : nat) (os : list opt) (gs : list (list Z * list opt)) : list (list Z * list opt) :=
+  match gs, gid with
+  | [], _ => []
+  | (c, os0) :: r, O => (c, os0 ++ os) :: r
+  | g :: r, S n => g :: group_push_all n os r
+  end.
+Definition bulk_add (k : Z) (c : ctx) : ctx * option (list Z) :=
+  let n := bulk_count k c in
+  if ctx_fresh c then
+    let gid := find_group_key bulk_caption (groups c) in
+    let gs := if (gid <? length (groups c))%nat then groups c else groups c ++ [(bulk_caption, [])] in
+    let ns := gen_names n in
+    let os := map (fun x => mkOpt x 0) ns in
+    (mkCtx (number_from O ns) os (group_push_all gid os gs), None)
+  else add_group bulk_caption (gen_opts n) c.
+
 (* ---- lookup ---- *)
 Inductive fres :=
 | FRange (r : list entry)          (* PrefixRange(it, up) as the list of its entries *)
@@ -290,10 +332,18 @@ Definition enc_seq (x : option seq_res) : list Z :=
   | Some (SOk ps) => 0 :: Z.of_nat (length ps) :: flat_map (fun p => [Z.of_nat (fst p); Z.of_nat (snd p)]) ps
   | Some (SErr f) => enc_lookup f
   end.
-Definition dump (c : ctx) : list Z :=
+(* a context of more than DUMP_FULL options (only op 9 builds one) is dumped in short: size, groups (caption, size), number of keys;
+   its index is examined through the lookups (findImpl prints the stored option numbers) *)
+Definition DUMP_FULL : Z := 4096.
+Definition dump_short (c : ctx) : list Z :=
+  Z.of_nat (length (options c)) :: Z.of_nat (length (groups c)) ::
+  flat_map (fun g => enc_str (fst g) ++ [Z.of_nat (length (snd g))]) (groups c) ++ [Z.of_nat (length (index c))].
+Definition dump_full (c : ctx) : list Z :=
   Z.of_nat (length (options c)) :: Z.of_nat (length (groups c)) ::
   flat_map (fun g => enc_str (fst g) ++ Z.of_nat (length (snd g)) :: flat_map (fun o => enc_str (oname o)) (snd g)) (groups c) ++
   Z.of_nat (length (index c)) :: flat_map (fun e => enc_str (fst e) ++ [Z.of_nat (snd e)]) (index c).
+Definition dump (c : ctx) : list Z :=
+  if DUMP_FULL <? Z.of_nat (length (options c)) then dump_short c else dump_full c.
 
 Fixpoint run_ops (fuel : nat) (l : list Z) (c : ctx) : list Z :=
   match fuel with
@@ -347,6 +397,8 @@ Fixpoint run_ops (fuel : nat) (l : list Z) (c : ctx) : list Z :=
           | allow :: entry :: r2 => enc_seq (parser_seq toks allow entry c) ++ run_ops f r2 c
           | _ => dump c
           end
+      | 9 :: k :: r =>                              (* add(group "N": k generated options o0000, o0001, ..) *)
+          let '(c1, e) := bulk_add k c in enc_add e ++ run_ops f r c1
       | _ => dump c
       end
   end.
